@@ -289,6 +289,23 @@ def impl(line: str) -> str:
             except Exception as e:  # noqa: BLE001
                 return _mk_err(e)
             return "ok " + hx(r)
+        if op == "mk.verifyc":
+            try:
+                r = merkle_root_from_branch(unhx(t[2]), [unhx(x) for x in _uncsv(t[3])], int(t[4]), _HASHES[t[1]],
+                                            merkle_proof._assert_inner_node_is_not_a_tx)
+            except Exception as e:  # noqa: BLE001
+                if common.err_class(e) == "value" and "inner node of the merkle branch is a valid transaction" in str(e):
+                    return "err innertx"
+                return _mk_err(e)
+            return "ok " + hx(r)
+        if op == "mk.proof":
+            return common.call_impl(merkle_proof.verify, unhx(t[1]), [unhx(x) for x in _uncsv(t[2])], int(t[3]), unhx(t[4]))
+        if op == "mk.istx":
+            try:
+                merkle_proof._assert_inner_node_is_not_a_tx(unhx(t[1]))
+            except merkle_proof.BTClibValueError:
+                return "ok True"
+            return "ok False"
         if op == "gcs.encode":
             return "ok " + hx(_gcs_encode(int(t[1]), [int(x) for x in _uncsv(t[2])]))
         if op == "gcs.decode":
@@ -320,6 +337,17 @@ def impl(line: str) -> str:
             return "ok " + str(block_filter._hash_to_range(int(t[1]), int(t[2]), unhx(t[3]), int(t[4])))
         if op == "cb.shortid":
             return "ok " + str(cbm._short_id((int(t[1]), int(t[2])), unhx(t[3])))
+        if op == "cb.fill":
+            from btclib.p2p.compact_blocks import PartialBlock
+            part = [None if x == "-" else _tx(int(x)) for x in _uncsv(t[1])]
+            sup = [_tx(int(x)) for x in _uncsv(t[2])]
+            by_hash = {tx.hash: x for x, tx in [(int(x), _tx(int(x))) for x in _uncsv(t[1]) + _uncsv(t[2]) if x != "-"]}
+            try:
+                blk = PartialBlock(_header(1), part, check_validity=False).fill(sup, check_validity=False)
+            except Exception as e:  # noqa: BLE001
+                c = common.err_class(e)
+                return "err " + ("count" if c == "value" and "invalid transactions count" in str(e) else c)
+            return "ok " + _csv(str(by_hash[tx.hash]) for tx in blk.transactions)
         if op == "cb.key":
             hdr = _HDR_BY_SER[unhx(t[1])]
             k0, k1 = CmpctBlock(hdr, int(t[2]), [], [], check_validity=False).short_id_key
@@ -646,7 +674,98 @@ def _o_bip158_vector(w):
     return True, f"height {height}: {f.element_count} elements"
 
 
+def craft_tx64(rng):
+    """a serialized transaction of exactly 64 bytes (CVE-2017-12842): legacy (script_sig + script_pub_key = 4
+    bytes) or with a witness (marker, flag, one witness item)."""
+    from btclib.script import Witness
+    if rng.random() < 0.7:
+        a = rng.randrange(0, 5)
+        tx = Tx(rng.getrandbits(31), rng.getrandbits(32),
+                [TxIn(OutPoint(common.rand_bytes(rng, 32), rng.getrandbits(32)), common.rand_bytes(rng, a),
+                      rng.getrandbits(32), check_validity=False)],
+                [TxOut(rng.getrandbits(40), common.rand_bytes(rng, 4 - a), check_validity=False)], check_validity=False)
+        raw = tx.serialize(include_witness=False, check_validity=False)
+    else:
+        # 4 + 2 + 1 + 41 + 1 + 9 + (1 + 1 + 0) + 4 = 64 with an empty script_sig, empty script_pub_key, one empty... no:
+        # witness stack of one item of length 0 is "empty witness"?  use one item of 1 byte and drop a byte elsewhere
+        tx = Tx(rng.getrandbits(31), rng.getrandbits(32),
+                [TxIn(OutPoint(common.rand_bytes(rng, 32), rng.getrandbits(32)), b"", rng.getrandbits(32),
+                      Witness([b""]), check_validity=False)],
+                [TxOut(rng.getrandbits(40), b"", check_validity=False)], check_validity=False)
+        raw = tx.serialize(include_witness=True, check_validity=False)
+    return raw
+
+
+def _o_merkle_inner_tx(w):
+    """CVE-2017-12842: a 64-byte transaction presented as an inner node (its halves as leaf and sibling, at any
+    level, either side) is refused by merkle_proof.verify although the bare arithmetic recomputes the root;
+    honest 64-byte nodes that are no transaction are not refused."""
+    raw = bytes.fromhex(w["tx"])
+    if len(raw) != 64:
+        return True, f"crafted tx is {len(raw)} bytes"
+    try:
+        merkle_proof._assert_inner_node_is_not_a_tx(raw)
+        return False, f"_assert_inner_node_is_not_a_tx accepts the transaction {raw.hex()}"
+    except merkle_proof.BTClibValueError:
+        pass
+    L, R = raw[:32], raw[32:]
+    above = [bytes.fromhex(x) for x in w["above"]]
+    root = hash256(raw)
+    idx_bits = w["bits"]
+    for k, sib in enumerate(above):
+        root = hash256(sib + root) if (idx_bits >> k) & 1 else hash256(root + sib)
+    for leaf, first, bit in ((L, R, 0), (R, L, 1)):
+        index = bit | (idx_bits << 1)
+        br = [first] + above
+        if merkle_root_from_branch(leaf, br, index, hash256) != root:
+            return False, "harness: crafted branch does not recompute the root"
+        if merkle_proof.verify(leaf[::-1], [x[::-1] for x in br], index, root[::-1]):
+            return False, f"branch through the 64-byte transaction {raw.hex()} verifies (side {bit}, depth {len(br)})"
+    # the same transaction one level up: honest halves below, the tx as the pair at level 1
+    if above:
+        x, y = above[0], bytes.fromhex(w["other"])
+        # leaf x with sibling y hashing to ... cannot hit a chosen value: only check a non-tx node is not refused
+        node = x + y
+        try:
+            merkle_proof._assert_inner_node_is_not_a_tx(node)
+        except merkle_proof.BTClibValueError:
+            return True, "random node happens to be a transaction"
+        r2 = hash256(node)
+        if not merkle_proof.verify(x[::-1], [y[::-1]], 0, r2[::-1]):
+            return False, "honest inner node refused"
+    return True, f"tx {raw[:8].hex()}… depth {1 + len(above)}"
+
+
+def _o_chain_work(w):
+    """chain_work(seq) refuses iff some element is refused by block_work (= Core credits it no work), else it is
+    the sum -- for EVERY order of the sequence (no history/cache dependence)."""
+    import itertools
+    seq = [bytes.fromhex(x) for x in w["seq"]]
+    per = []
+    for b in seq:
+        want = core_block_proof(int.from_bytes(b, "big")) if len(b) == 4 else 0
+        try:
+            got = pw.block_work(b)
+        except pw.BTClibValueError:
+            got = 0
+        if got != want:
+            return False, f"block_work({b.hex()}) = {got}, Core {want}"
+        per.append(want)
+    total = None if any(x == 0 for x in per) else sum(per)
+    for perm in itertools.permutations(range(len(seq))):
+        s_ = [seq[i] for i in perm]
+        try:
+            got = pw.chain_work(s_)
+        except pw.BTClibValueError:
+            got = None
+        if got != total:
+            return False, f"chain_work({[x.hex() for x in s_]}) = {got} instead of {total}"
+    return True, f"{len(seq)} headers, total {total}"
+
+
 ORACLES = {
+    "merkle.inner_tx": _o_merkle_inner_tx,
+    "pow.chain_work": _o_chain_work,
     "bip158.vector": _o_bip158_vector,
     "block.commitments": _o_block_commitments,
     "pow.roundtrip": _o_pow_roundtrip,
@@ -808,6 +927,53 @@ def run(ctx):
             br = br[:-1] if br and rng.random() < 0.5 else br + [common.rand_bytes(rng, 32)]
         verifies.append(f"mk.verify {hf} {hx(leaf)} {_csv(hx(x) for x in br)} {idx}")
         ctx.check("merkle.branch", {"leaves": [x.hex() for x in leaves], "i": i, "flip": rng.randrange(1 << 16), "hf": hf})
+    # CVE-2017-12842: 64-byte transactions as inner nodes, through the checked verifier and merkle_proof.verify
+    vc, pf, it = [], [], []
+    for _ in range(ctx.n(150, 3000)):
+        raw = craft_tx64(rng)
+        depth = rng.randrange(0, 4)
+        above = [common.rand_bytes(rng, 32) for _ in range(depth)]
+        bits_ = rng.getrandbits(depth) if depth else 0
+        ctx.check("merkle.inner_tx", {"tx": raw.hex(), "above": [x.hex() for x in above], "bits": bits_,
+                                      "other": common.rand_bytes(rng, 32).hex()}, nontrivial=len(raw) == 64)
+        it.append(f"mk.istx {hx(raw)}")
+        mut = bytearray(raw)
+        mut[rng.randrange(64)] ^= 1 << rng.randrange(8)
+        it.append(f"mk.istx {hx(bytes(mut))}")
+        it.append(f"mk.istx {hx(common.rand_bytes(rng, rng.choice([64, 64, 63, 65, 60])))}")
+        if len(raw) != 64:
+            continue
+        # the tx sits at level k of the path: honest hashing below it is impossible to aim, so it is the bottom
+        # pair (k = 0) or reached from a leaf whose first sibling makes the running hash irrelevant: bottom only
+        side = rng.randrange(2)
+        leaf, first = (raw[:32], raw[32:]) if side == 0 else (raw[32:], raw[:32])
+        br = [first] + above
+        index = side | (bits_ << 1)
+        root = hash256(raw)
+        for k, sib in enumerate(above):
+            root = hash256(sib + root) if (bits_ >> k) & 1 else hash256(root + sib)
+        r = rng.random()
+        if r < 0.2:
+            br[0] = bytes(mut[32:]) if side == 0 else bytes(mut[:32])     # one bit off: (almost surely) no tx any more
+        vc.append(f"mk.verifyc h256 {hx(leaf)} {_csv(hx(x) for x in br)} {index}")
+        pf.append(f"mk.proof {hx(leaf[::-1])} {_csv(hx(x[::-1]) for x in br)} {index} {hx(root[::-1])}")
+    # the checked verifier and the display-order entry point on the honest / tampered cases as well
+    for ln in verifies[: ctx.n(300, 3000)] + verifies[-ctx.n(150, 3000):]:
+        t_ = ln.split(" ")
+        if t_[1] == "h256":
+            vc.append("mk.verifyc " + " ".join(t_[1:]))
+            try:
+                root_ = merkle_root_from_branch(unhx(t_[2]), [unhx(x) for x in _uncsv(t_[3])], int(t_[4]), hash256)
+            except Exception:  # noqa: BLE001
+                root_ = common.rand_bytes(rng, 32)
+            if rng.random() < 0.1:
+                root_ = root_[:-1]
+            br_ = _uncsv(t_[3])
+            if all(len(x) % 2 == 0 for x in br_):
+                pf.append(f"mk.proof {hx(unhx(t_[2])[::-1])} {_csv(hx(unhx(x)[::-1]) for x in br_)} {t_[4]} {hx(root_[::-1])}")
+    ctx.stream("merkle.istx", it)
+    ctx.stream("merkle.verify_checked", vc)
+    ctx.stream("merkle.proof_verify", pf, nontrivial=lambda ln, out: out == "ok True")
     ctx.stream("merkle.root", roots)
     ctx.stream("merkle.branch", branches)
     ctx.stream("merkle.verify", verifies)
@@ -926,6 +1092,14 @@ def run(ctx):
         rec.append(f"cb.reconstruct {_csv(str(x) for x in pre)} {_csv(str(x) for x in sids)} "
                    f"{_csv(f'{s}:{t}' for s, t in pool)}")
     ctx.stream("cb.reconstruct", rec)
+    fl = []
+    for _ in range(ctx.n(300, 6000)):
+        n = rng.randrange(0, 8)
+        part = [rng.choice(["-", str(rng.randrange(1, 50))]) for _ in range(n)]
+        missing = part.count("-")
+        k = missing if rng.random() < 0.7 else max(0, missing + rng.choice([-1, 1, 2]))
+        fl.append(f"cb.fill {_csv(part)} {_csv(str(rng.randrange(50, 99)) for _ in range(k))}")
+    ctx.stream("cb.fill", fl)
     # short-id key of a message (sha256(header || nonce)) incl. the recorded pair of btclib's tests
     big = _block("block_481824_complete.bin")
     klines = []
@@ -1015,7 +1189,22 @@ def run(ctx):
         if any(len(x) == 0 for x in seq):
             continue
         cw.append(f"pow.chainwork {_csv(hx(x) for x in seq)}")
+    # equal-magnitude positive / negative / zero / overflowing bits in every order (history independence)
+    import itertools
+    fam = [bytes.fromhex(x) for x in ("1d00ffff", "1d80ffff", "1b0404cb", "1b8404cb", "1d000000", "1d800000",
+                                      "2200ffff", "2300ffff", "2380ffff", "03000001", "03800001", "01000000")]
+    ctx.exhaustive_streams.append("pow.chainwork.orders: every ordered pair and a sample of ordered triples over 12 "
+                                  "equal-magnitude positive/negative/zero/overflow bits")
+    ordered = [list(p_) for p_ in itertools.product(fam, repeat=2)]
+    ordered += [list(p_) for p_ in itertools.permutations(fam[:6], 3)]
+    ordered += [[rng.choice(fam) for _ in range(rng.randrange(3, 7))] for _ in range(ctx.n(100, 3000))]
+    cw += [f"pow.chainwork {_csv(hx(x) for x in q)}" for q in ordered]
     ctx.stream("pow.chainwork", cw)
+    for q in [list(c) for c in itertools.combinations(fam, 2)] + [list(c) for c in itertools.combinations(fam[:8], 3)] \
+            + [[fam[0], fam[1], fam[0]], [fam[0], fam[0], fam[1]], [fam[2], fam[3], fam[2], fam[0]]] \
+            + [[rng.choice(fam + [rand_bits(rng).to_bytes(4, "big")]) for _ in range(rng.randrange(2, 5))]
+               for _ in range(ctx.n(40, 800))]:
+        ctx.check("pow.chain_work", {"seq": [x.hex() for x in q]})
 
     for k in range(ctx.n(6, 60)):
         ctx.check("cb.fill", {"seed": rng.getrandbits(32), "n": rng.choice([1, 2, 5, 20, 60]), "nonce": rng.getrandbits(64)})
